@@ -27,6 +27,12 @@ class _App:
                     return
                 if m["type"] == "websocket.receive":
                     await send({"type": "websocket.send", "text": "ack"})
+        if scope["raw_path"] == b"/sibling":
+            # the ordinary neighbour: reads its whole request body before answering
+            while True:
+                m = await receive()
+                if m["type"] != "http.request" or not m.get("more_body"):
+                    break
         payload = b"ok:" + scope["raw_path"]
         await send({"type": "http.response.start", "status": 200, "headers": [(b"content-length", str(len(payload)).encode())]})
         await send({"type": "http.response.body", "body": payload, "more_body": False})
@@ -45,6 +51,7 @@ KINDS = [
     "three PINGs", "SETTINGS change mid-connection", "percent-encoded non-UTF-8 path", "empty header value and huge header count",
     "WINDOW_UPDATE on a stream answered before its request body ended", "RST_STREAM(NO_ERROR) on a stream answered before its request body ended",
     "WINDOW_UPDATE on the connection and on an idle (never opened) stream id is not sent; PRIORITY for a finished stream",
+    "a whole connection window (65535 bytes) of DATA after the response completed, request body never ended",
 ]
 
 
@@ -73,8 +80,13 @@ def _raw_headers(c: H2Client, sid: int, headers, end_stream: bool, pad: int = 0,
     return out
 
 
+_FLOW = [0]  # flow-controlled bytes the client has sent on this connection (reset per execution)
+_SIB_BODY = b"sibling-body"
+
+
 @untraced
 def _raw_data(sid: int, data: bytes, end_stream: bool, pad: int = 0) -> bytes:
+    _FLOW[0] += len(data) + (pad + 1 if pad else 0)
     f = hf.DataFrame(sid, data)
     if end_stream:
         f.flags.add("END_STREAM")
@@ -163,11 +175,34 @@ def _odd_traffic(kind: int, c: H2Client, conn: Conn, sid: int, obs: H2FrameObser
             conn.feed(_raw(hf.WindowUpdateFrame(sid, window_increment=1000)))
         else:
             conn.feed(_raw(hf.RstStreamFrame(sid, error_code=0)))
-    else:
+    elif kind == 20:
         conn.feed(_raw_headers(c, sid, _std(), True))
         pump()
         conn.feed(_raw(hf.WindowUpdateFrame(0, window_increment=1000)))
         conn.feed(_raw(hf.PriorityFrame(sid, depends_on=0, stream_weight=200)))
+    else:
+        # the client is entitled to keep uploading: neither the stream window nor the connection window is exceeded
+        conn.feed(_raw_headers(c, sid, _std(method=b"POST"), False))
+        pump()
+        room = min(65535, 65535 - _FLOW[0] + obs.window_updates.get(0, 0))
+        while room > 0:
+            n = min(16384, room)
+            conn.feed(_raw_data(sid, b"z" * n, False))
+            room -= n
+            pump()
+
+
+def _send_sibling(c: H2Client, conn: Conn, sib: int, obs: H2FrameObserver) -> str:
+    """POST /sibling with a small body, sent only as far as the connection window the server has granted allows."""
+    conn.feed(_raw_headers(c, sib, _std(method=b"POST", path=b"/sibling", extra=[(b"content-length", b"%d" % len(_SIB_BODY))]), False))
+    obs.feed(conn.take())
+    if obs.goaway is not None or conn.server_closed:
+        return ""
+    room = 65535 - _FLOW[0] + obs.window_updates.get(0, 0)
+    if room < len(_SIB_BODY):
+        return f"the connection window is exhausted ({room} bytes left after {_FLOW[0]} sent): the neighbouring upload cannot proceed"
+    conn.feed(_raw_data(sib, _SIB_BODY, True))
+    return ""
 
 
 @harness(
@@ -179,7 +214,7 @@ def _odd_traffic(kind: int, c: H2Client, conn: Conn, sid: int, obs: H2FrameObser
     witnesses=[{"n": 2, "k0": 7, "k1": 10, "k2": 0, "sib_first": False, "flavour": 0}, {"n": 1, "k0": 14, "k1": 0, "k2": 0, "sib_first": True, "flavour": 1}],
     budget={"quick": 120, "thorough": 900},
     per_path=60,
-    bounds="sequences of 1..2 (thorough 3) odd-but-legal HTTP/2 exchanges from 21 kinds (non-ASCII/NUL path, ordinary CONNECT, DATA/trailers after the response completed, PRIORITY before HEADERS, RST/WINDOW_UPDATE on finished streams, CONTINUATION, padding, empty DATA, unknown frame type, PING burst, SETTINGS change, ...) each on its own stream, next to a normal sibling request sent before or after them; both worker flavours",
+    bounds="sequences of 1..2 (thorough 3) odd-but-legal HTTP/2 exchanges from 22 kinds (non-ASCII/NUL path, ordinary CONNECT, DATA/trailers after the response completed, PRIORITY before HEADERS, RST/WINDOW_UPDATE on finished streams, CONTINUATION, padding, empty DATA, unknown frame type, PING burst, SETTINGS change, ...) each on its own stream, next to a normal sibling upload (POST with a body, sent within the flow-control credit the server has granted) before or after them; both worker flavours",
     encodes=["hypercorn/protocol/h2.py::H2Protocol.handle", "hypercorn/protocol/h2.py::H2Protocol._handle_events", "hypercorn/protocol/h2.py::H2Protocol._create_stream",
              "hypercorn/protocol/http_stream.py::HTTPStream.handle", "hypercorn/protocol/ws_stream.py::WSStream.handle", "hypercorn/protocol/h2.py::H2Protocol._priority_updated"],
     stubs=["tier B runtime", "frames that h2's client API refuses to emit are serialised with hyperframe/hpack directly", "independent h2 client parses the server's output"],
@@ -190,6 +225,7 @@ def h2_odd_traffic(n: int, k0: int, k1: int, k2: int, sib_first: bool, flavour: 
     post: _
     """
     enter()
+    _FLOW[0] = 0
     n = conc(n, 1, 3)
     ks = (k0, k1, k2)
     kinds = [conc(ks[i], 0, len(KINDS) - 1) for i in range(n)]
@@ -207,16 +243,18 @@ def h2_odd_traffic(n: int, k0: int, k1: int, k2: int, sib_first: bool, flavour: 
     if sib_first:
         # stream ids must increase: the sibling takes the lowest id, the odd ones follow
         sib = 1
-        conn.feed(_raw_headers(c, sib, _std(path=b"/sibling"), True))
+        stalled = _send_sibling(c, conn, sib, obs)
     for i, kd in enumerate(kinds):
         sid = 2 * i + (3 if sib_first else 1)
         _odd_traffic(kd, c, conn, sid, obs)
         obs.feed(conn.take())
     if not sib_first:
-        conn.feed(_raw_headers(c, sib, _std(path=b"/sibling"), True))
+        stalled = _send_sibling(c, conn, sib, obs)
     obs.feed(conn.take())
     why = ""
-    if conn.sched.errors:
+    if stalled:
+        why = stalled
+    elif conn.sched.errors:
         why = "unhandled exception in the connection: %s %r" % (conn.sched.errors[0][0], conn.sched.errors[0][1])
     elif obs.errors:
         why = "server output does not parse as HTTP/2 frames: %r" % (obs.errors,)
